@@ -274,6 +274,22 @@ fn more_family<
                 }
                 out.push(x);
             }
+            for tw in [false, true] {
+                let mut x = inst(
+                    format!("panic_cas{}:{}", if tw { "2" } else { "" }, path),
+                    &["C18"],
+                    mode,
+                    if tw { 3 } else { 2 },
+                    "as panic_dtor, but the first writer does compare_and_swap(raw pointer of the initial value => new)",
+                    move || h_more::panic_dtor_g::<S>(fill, tw, false, true),
+                );
+                if tw {
+                    x.k = 1;
+                    x.p_with_k = Some(2);
+                    x.thorough_only = path == "fast";
+                }
+                out.push(x);
+            }
             if path == "fast" {
                 let mut x = inst(
                     "panic_dtor2h:full".to_string(),
@@ -281,7 +297,7 @@ fn more_family<
                     mode,
                     3,
                     "as panic_dtor2, but the reader's fast slots hold S guards of the container itself (unpaid debts on the replaced value while a writer's walk is abandoned by a panic)",
-                    move || h_more::panic_dtor_g::<S>(true, true, true),
+                    move || h_more::panic_dtor_g::<S>(true, true, true, false),
                 );
                 x.k = 1;
                 x.p_with_k = Some(2);
@@ -301,7 +317,7 @@ fn more_family<
         for (rcu, name) in [(false, "cas"), (true, "rcu")] {
             let mut x = inst(
                 format!("opt_{}:{}:{}", name, path, m),
-                &["C01", "C02", "C03", "C05", "C06"],
+                &["C01", "C02", "C03", "C05", "C06", "C07"],
                 mode,
                 3,
                 "Option container: R{load, drop, load_full} || C{compare_and_swap(None => c) | rcu} step by step; W{swap None; swap b; swap None} as complete calls placed anywhere",
